@@ -658,6 +658,81 @@ fn chain_case(n: usize, by_wake: bool) -> CaseOut {
     out
 }
 
+/// The caller's waker of a bridged poll is itself a waker that was retained from an EARLIER bridged poll (an executor that stores
+/// the wakers it was handed and polls nested tasks with them): depth levels of retained wakers, each the caller's waker of the
+/// next poll. `order` is the order in which the retained handles are let go (index into the levels), `wake_level` the handle woken
+/// by reference before that. Every level's handle is an independent owner: releasing one never invalidates the one it wraps.
+fn nested_retained_case(depth: usize, order: &[usize], wake_level: usize) -> CaseOut {
+    let (w0, slot) = manual_waker(false);
+    let mut callers: Vec<Waker> = vec![w0];
+    for _level in 0..depth {
+        let world = Arc::new(Mutex::new(World::default()));
+        world.lock().unwrap().pending = vec![Act::CloneCx];
+        let mut obj = trait_obj!(Scripted(world.clone()) as Future);
+        {
+            let mut cx = Context::from_waker(callers.last().unwrap());
+            let _ = Future::poll(Pin::new(&mut obj), &mut cx);
+        }
+        let h = world.lock().unwrap().wakers.pop().map(|x| x.0);
+        drop(obj);
+        match h {
+            Some(h) => callers.push(h),
+            None => return CaseOut::bad("harness", "the scripted future did not retain a waker"),
+        }
+    }
+    let mut handles: Vec<Option<Waker>> = callers.into_iter().map(Some).collect();
+    // handles[0] is the harness' own waker, handles[1..] are the retained levels
+    if slot.released.load(SeqCst) || slot.refs.load(SeqCst) < 2 {
+        return CaseOut::bad("waker:nested_early_release", format!("{} nested levels: the caller's waker has refcount {} (released: {}) while every level still holds its handle", depth, slot.refs.load(SeqCst), slot.released.load(SeqCst)));
+    }
+    handles[wake_level + 1].as_ref().unwrap().wake_by_ref();
+    let mut out_wakes = slot.wakes.load(SeqCst);
+    if out_wakes != 1 {
+        return CaseOut::bad("waker:wake_count", format!("{} nested levels: waking the level-{} handle by reference woke the caller {} time(s)", depth, wake_level + 1, out_wakes));
+    }
+    for (k, &lvl) in order.iter().enumerate() {
+        drop(handles[lvl + 1].take());
+        if slot.below_start.load(SeqCst) || slot.touched_after_release.load(SeqCst) || slot.released.load(SeqCst) {
+            return CaseOut::bad("waker:over_release", format!("{} nested levels, handles let go in the order {:?}: after letting go of level {} ({} of {}) the caller's waker was released / touched after release although the harness still owns it", depth, order, lvl + 1, k + 1, order.len()));
+        }
+        // a level that is still held still owns (directly or through the levels below it) a clone of the caller's waker ...
+        if handles.iter().skip(1).any(|h| h.is_some()) && slot.refs.load(SeqCst) < 2 {
+            return CaseOut::bad("waker:nested_early_release", format!("{} nested levels, handles let go in the order {:?}: after letting go of level {} the clone of the caller's waker was released (refcount {}) although retained handles that wake through it are alive", depth, order, lvl + 1, slot.refs.load(SeqCst)));
+        }
+        // ... and must still reach the caller
+        if let Some(Some(h)) = handles.iter().skip(1).find(|h| h.is_some()) {
+            h.wake_by_ref();
+            out_wakes += 1;
+            if slot.wakes.load(SeqCst) != out_wakes {
+                return CaseOut::bad("waker:wake_count", format!("{} nested levels, order {:?}: after letting go of level {} a remaining handle no longer wakes the caller", depth, order, lvl + 1));
+            }
+        }
+    }
+    if slot.refs.load(SeqCst) != 1 {
+        return CaseOut::bad("waker:leak", format!("{} nested levels, order {:?}: every retained handle is gone, the caller's waker still has refcount {}", depth, order, slot.refs.load(SeqCst)));
+    }
+    drop(handles[0].take());
+    if !slot.released.load(SeqCst) || slot.below_start.load(SeqCst) || slot.touched_after_release.load(SeqCst) {
+        return CaseOut::bad("waker:over_release", format!("{} nested levels, order {:?}: the caller's waker was not released exactly once at the end", depth, order));
+    }
+    CaseOut::ok(digest(&(depth, order, wake_level, out_wakes)))
+}
+
+fn permutations(n: usize) -> Vec<Vec<usize>> {
+    if n == 0 {
+        return vec![vec![]];
+    }
+    let mut out = Vec::new();
+    for p in permutations(n - 1) {
+        for i in 0..=p.len() {
+            let mut q = p.clone();
+            q.insert(i, n - 1);
+            out.push(q);
+        }
+    }
+    out
+}
+
 /// While the last handle of a waker family is being released (inside the release of the caller's waker clone it held), ANOTHER
 /// thread polls the task again with the same caller waker and retains the waker it is given. The new handle must be a
 /// fully valid one: waking it wakes the caller, letting go of it releases exactly what it acquired.
@@ -799,6 +874,24 @@ fn main() {
             }
         }),
         replay: Box::new(|case: &Value| chain_case(case["n"].as_u64().unwrap() as usize, case["by_wake"].as_bool().unwrap())),
+    });
+    sections.push(Section {
+        name: "nested_retained",
+        explore: Box::new(|cx: &Cx| {
+            let dmax = cx.tier.pick(3, 4);
+            cx.rule("nested_retained", &format!("the caller's waker of a bridged poll is itself a waker retained from an earlier bridged poll: 1..={} nested levels x every order of letting the retained handles go x the level woken by reference first; every level is an independent owner (after each release the remaining handles still wake the caller, the caller's waker is not released while the harness owns it) and the count is back to the harness' own reference at the end", dmax));
+            for depth in 1..=dmax {
+                for order in permutations(depth) {
+                    for wl in 0..depth {
+                        cx.eval("nested_retained", &serde_json::json!({"depth": depth, "order": order, "wake_level": wl}), || nested_retained_case(depth, &order, wl));
+                    }
+                }
+            }
+        }),
+        replay: Box::new(|case: &Value| {
+            let order: Vec<usize> = serde_json::from_value(case["order"].clone()).unwrap();
+            nested_retained_case(case["depth"].as_u64().unwrap() as usize, &order, case["wake_level"].as_u64().unwrap() as usize)
+        }),
     });
     sections.push(Section {
         name: "repoll_during_release",
